@@ -15,6 +15,11 @@ struct Shape {
     fields: Vec<(usize, bool, usize)>,
     vis: usize,
     remote: bool,
+    /// per-field attribute decoration: 0 none, 1 doc comment before the marker, 2 #[allow(..)] before,
+    /// 3 doc comment after the marker, 4 #[cfg(all())] before
+    deco: Vec<u8>,
+    /// struct-level decoration: 0 none, 1 doc comment, 2 #[allow(dead_code)] (before the remote attribute)
+    sdeco: u8,
 }
 
 impl Shape {
@@ -30,13 +35,24 @@ impl Shape {
     }
     fn decl(&self) -> String {
         let mut s = String::new();
+        match self.sdeco {
+            1 => s += "/// A documented struct.\n",
+            2 => s += "#[allow(dead_code)] ",
+            _ => {}
+        }
         if self.remote {
             s += "#[animate(remote = \"RemoteW\")] ";
         }
         s += &format!("{}struct {} {{ ", VIS[self.vis], self.name());
         for (i, (t, a, v)) in self.fields.iter().enumerate() {
-            if *a {
-                s += "#[animate] ";
+            let d = self.deco.get(i).copied().unwrap_or(0);
+            let marker = if *a { "#[animate] " } else { "" };
+            match d {
+                1 => s += &format!("\n/// A documented field.\n{marker}"),
+                2 => s += &format!("#[allow(dead_code)] {marker}"),
+                3 => s += &format!("{marker}\n/// A documented field.\n"),
+                4 => s += &format!("#[cfg(all())] {marker}"),
+                _ => s += marker,
             }
             s += &format!("{}f{}: {}, ", VIS[*v], i, TYPES[*t]);
         }
@@ -226,6 +242,7 @@ fn check_shape(sh: &Shape, rank: u64, sink: &mut VSink) {
 
 /// Decodes shape number `idx` among the shapes with exactly n fields.
 fn decode(n: usize, mut idx: u64, ntypes: usize) -> Shape {
+    let idx0 = idx;
     let remote = idx % 2 == 1;
     idx /= 2;
     let vis = (idx % 3) as usize;
@@ -238,7 +255,10 @@ fn decode(n: usize, mut idx: u64, ntypes: usize) -> Shape {
         idx /= ntypes as u64;
         fields.push((ty, a, (i + vis) % 3));
     }
-    Shape { fields, vis, remote }
+    // decorations rotate with the shape number so that every enumerated size carries all of them
+    let seed = (idx0 / 6) as usize;
+    let deco: Vec<u8> = (0..n).map(|i| if (seed + i) % 3 == 0 { 0 } else { ((seed / 3 + i * 2) % 5) as u8 }).collect();
+    Shape { fields, vis, remote, deco, sdeco: (seed % 3) as u8 }
 }
 
 fn count(n: usize, ntypes: usize) -> u64 {
@@ -457,6 +477,29 @@ pub fn run(run: Run) -> ! {
             }
         },
     );
+    // exhaustive attribute-decoration family: 1..2 fields, types {f32,i32}, every #[animate] subset, every
+    // per-field decoration (none / doc before / #[allow] before / doc after / #[cfg] before), 3 struct
+    // decorations, local and remote
+    let mut deco_shapes: Vec<Shape> = vec![];
+    for n in 1..=2usize {
+        let per = 20u64.pow(n as u32);
+        for k in 0..per * 6 {
+            let (mut x, sdeco, remote) = (k / 6, (k % 3) as u8, (k % 6) >= 3);
+            let mut fields = vec![];
+            let mut deco = vec![];
+            for i in 0..n {
+                let c = x % 20;
+                x /= 20;
+                fields.push((if c % 2 == 0 { 0 } else { 4 }, (c / 2) % 2 == 1, i % 3));
+                deco.push((c / 4) as u8);
+            }
+            deco_shapes.push(Shape { fields, vis: (k % 3) as usize, remote, deco, sdeco });
+        }
+    }
+    for (i, sh) in deco_shapes.iter().enumerate() {
+        acc.shapes += 1;
+        check_shape(sh, (9u64 << 40) | i as u64, &mut acc.sink);
+    }
     // Layer B selection: all (types x attribute subsets) with <= 2 fields, visibility/remote rotating (quick) or
     // all combinations (thorough), plus larger shapes at a stride
     let mut sel: Vec<Shape> = vec![];
@@ -485,6 +528,11 @@ pub fn run(run: Run) -> ! {
             k += stride;
         }
     }
+    for (i, sh) in deco_shapes.iter().enumerate() {
+        if i % (if thorough { 7 } else { 41 }) == 3 {
+            sel.push(sh.clone());
+        }
+    }
     let shapes_a = acc.shapes;
     let (compiled, checks) = layer_b(&sel, &mut acc.sink);
     let mut cov = Map::new();
@@ -495,7 +543,7 @@ pub fn run(run: Run) -> ! {
     cov.insert("programs_compiled".into(), json!(compiled));
     cov.insert("evaluations".into(), json!(shapes_a + checks));
     cov.insert("distinct_nontrivial".into(), json!(shapes_a));
-    cov.insert("rule".into(), json!(format!("Layer A (in-process expansion of the real derive source, parsed as a syn::File): ALL struct shapes with {} fields over types {{f32,f64,u8,i16,i32,u32}} x every #[animate] subset x struct visibility {{private,pub,pub(crate)}} (field visibilities rotated) x {{local, #[animate(remote = ...)] proxy}}; oracle: animated field set = attributed fields, or all if none is attributed; the keyframe builder has exactly one public setter per animated field with the field's type, keyframe data and t_<field> sub-timelines likewise, keyframe_from / values_from / update / start_with touch exactly the animated fields and are wired name-to-name, Target is the (remote) type, visibility copied, accessors forwarded to the time scale. Layer B: {} shapes compiled with the real derive: setter presence observed at run time (inherent-vs-trait method resolution), keyframe_from copies exactly the animated fields, un-animated fields keep sentinels, every animated field interpolates per a linear reference on a 41-point time grid (delay, two cycles, after the end), metadata accessors return the configured values ({} run-time checks)", if thorough { "1..5 (6 types) and 6 (3 types)" } else { "1..4" }, compiled, checks)));
+    cov.insert("rule".into(), json!(format!("Layer A (in-process expansion of the real derive source, parsed as a syn::File): ALL struct shapes with {} fields over types {{f32,f64,u8,i16,i32,u32}} x every #[animate] subset x struct visibility {{private,pub,pub(crate)}} (field visibilities rotated) x {{local, #[animate(remote = ...)] proxy}}, with doc comments / #[allow] / #[cfg] attributes before or after the #[animate] marker and on the struct (rotated over all shapes, and exhaustively for 1..2 fields); oracle: animated field set = attributed fields, or all if none is attributed; the keyframe builder has exactly one public setter per animated field with the field's type, keyframe data and t_<field> sub-timelines likewise, keyframe_from / values_from / update / start_with touch exactly the animated fields and are wired name-to-name, Target is the (remote) type, visibility copied, accessors forwarded to the time scale. Layer B: {} shapes compiled with the real derive: setter presence observed at run time (inherent-vs-trait method resolution), keyframe_from copies exactly the animated fields, un-animated fields keep sentinels, every animated field interpolates per a linear reference on a 41-point time grid (delay, two cycles, after the end), metadata accessors return the configured values ({} run-time checks)", if thorough { "1..5 (6 types) and 6 (3 types)" } else { "1..4" }, compiled, checks)));
     cov.insert("exhaustive".into(), json!(true));
     cov.insert("compiled_runtime_checks".into(), json!(checks));
     cov.insert("samples".into(), json!(acc.samples));
